@@ -25,7 +25,7 @@ pub struct Built {
 	pub logs: Option<pipe::Logs>,
 }
 
-pub const KINDS: usize = 20;
+pub const KINDS: usize = 24;
 
 pub fn kind_name(kind: usize) -> String {
 	match kind {
@@ -40,7 +40,11 @@ pub fn kind_name(kind: usize) -> String {
 		16 => "vpl:nested".into(),
 		17 => "vpl:from_debug".into(),
 		18 => "vpl:from_vectortiles_merged".into(),
-		_ => "vpl:vectortiles_update_properties".into(),
+		19 => "vpl:vectortiles_update_properties".into(),
+		20 => "vplfile(get_reader)".into(),
+		21 => "vpl:deep-nesting".into(),
+		22 => "convert(vpl)".into(),
+		_ => "vpl:vector-nesting".into(),
 	}
 }
 
@@ -324,6 +328,61 @@ pub fn build_source(rng: &mut Rng, kind: usize, dir: &Path, max_tiles: usize) ->
 			let model = if kind == 12 { Some(sets[0].tiles.clone()) } else { None };
 			Ok(Built { reader: Box::new(r), class, describe: json!({"vpl": vpl, "sources": sets.iter().map(|t| t.describe()).collect::<Vec<_>>()}), known, model, logs: Some(logs) })
 		}
-		_ => crate::mvtsrc::build_vector_source(rng, kind, dir, max_tiles),
+		18 | 19 | 23 => crate::mvtsrc::build_vector_source(rng, kind, dir, max_tiles),
+		_ => {
+			// 20: a .vpl file next to real container files, opened through get_reader
+			// 21: three levels of overlays / filters; 22: the converting reader over such a pipeline
+			let n = rng.range(3, 4) as usize;
+			let sets = related_sets(rng, n, max_tiles.min(200), false, None);
+			let mut known = BTreeSet::new();
+			let mut sources = Sources::new();
+			let mut names = vec![];
+			for (i, ts) in sets.iter().enumerate() {
+				known.extend(ts.tiles.keys().cloned());
+				let targets: Vec<&str> = ["versatiles", "tar", "pmtiles", "mbtiles"].iter().cloned().filter(|t| pairs_for(t).contains(&(ts.format, ts.comp))).collect();
+				if kind == 20 || rng.chance(0.3) {
+					let target = if targets.is_empty() { "versatiles" } else { *rng.pick(&targets) };
+					let sub = dir.join(format!("d{i}"));
+					let _ = std::fs::create_dir_all(&sub);
+					let p = write_own(ts, target, &sub)?;
+					let rel = format!("d{i}/{}", p.file_name().unwrap().to_string_lossy());
+					sources.add(&rel, Src::File(p.clone()));
+					sources.add(&p.file_name().unwrap().to_string_lossy().to_string(), Src::File(p));
+					names.push(rel);
+				} else {
+					sources.add(&format!("s{i}.x"), Src::Mem { ts: ts.clone(), pyramid: None, default_stream: rng.chance(0.3), yields: if rng.chance(0.3) { 1 } else { 0 }, open_yields: if rng.chance(0.3) { 2 } else { 0 } });
+					names.push(format!("s{i}.x"));
+				}
+			}
+			let lv: Vec<u8> = sets.iter().flat_map(|s| s.levels()).collect();
+			let zf = |rng: &mut Rng| format!("filter_zoom min={} max={}", rng.pick(&lv), (*rng.pick(&lv)).max(*rng.pick(&lv)));
+			let c = |i: usize| format!("from_container filename=\"{}\"", names[i]);
+			let vpl = if n >= 4 {
+				format!("from_overlayed [\n  from_overlayed [ {} , {} | {} ] | {},\n  {} ,\n  {} | {}\n] | {}", c(0), c(1), zf(rng), zf(rng), c(2), c(3), zf(rng), zf(rng))
+			} else {
+				format!("from_overlayed [ from_overlayed [ {}, {} ] | {}, {} | {} ]", c(0), c(1), zf(rng), c(2), zf(rng))
+			};
+			let desc = json!({"vpl": vpl, "sources": sets.iter().map(|t| t.describe()).collect::<Vec<_>>()});
+			if kind == 20 {
+				let f = dir.join("pipeline.vpl");
+				std::fs::write(&f, &vpl).map_err(|e| e.to_string())?;
+				let reader = open(&f)?;
+				return Ok(Built { reader, class, describe: desc, known, model: None, logs: None });
+			}
+			let (r, logs) = guard::block_on(pipe::build(&vpl, &sources, None)).map_err(|e| format!("{vpl}: {e:#}"))?;
+			if kind == 22 {
+				let flip = rng.bool();
+				let swap = rng.bool();
+				let cp = TilesConverterParameters::new(if rng.bool() { Some(rng.pick(&comp::ALL).to_core()) } else { None }, None, rng.chance(0.3), flip, swap);
+				let cr = TilesConvertReader::new_from_reader(Box::new(r), cp).map_err(|e| format!("converter: {e:#}"))?;
+				let mut k2 = BTreeSet::new();
+				for k in &known {
+					k2.insert(*k);
+					k2.insert(crate::model::transform(k, flip, swap));
+				}
+				return Ok(Built { reader: Box::new(cr), class, describe: desc, known: k2, model: None, logs: Some(logs) });
+			}
+			Ok(Built { reader: Box::new(r), class, describe: desc, known, model: None, logs: Some(logs) })
+		}
 	}
 }
